@@ -28,6 +28,13 @@ def _eff(b, t, e):
 
 
 def work(bi, tier, seed):
+    # every second unit is computed in a fresh non-main thread: a score must not depend on thread-local state
+    if bi % 2:
+        return runner.in_thread(_work, bi, tier, seed)
+    return _work(bi, tier, seed)
+
+
+def _work(bi, tier, seed):
     """all (thorough) or sampled (quick) classes above base assignment number bi"""
     import cvss
     CVSS2 = cvss.CVSS2
